@@ -274,6 +274,13 @@ CODE = [BaseGASampler.get_parent_population, BaseGASampler.get_trial_generation,
 def classify(c):
     import re
     m = re.sub(r"at [\w\.]+:\d+: ", "", c["message"])
+    sc = c.get("notes", {}).get("scenario")
+    if sc is not None:
+        off = "id-offset>0" if sc.get("offset") else "id-offset=0"
+        if "parents from cache" in m or "parents read by a second worker" in m:
+            return f"cached-parents-differ:{off}"
+        if "IndexError" in c["message"] and "_base.py" in c["message"]:
+            return f"IndexError-in-get_parent_population:{off}"
     return re.sub(r"\[[^\]]*\]|\d+", "_", m)[:100]
 
 
